@@ -143,6 +143,7 @@ def run(rep, props, replay=None):
         monitors(rep, rng, runq, todo, full, data, comps, grids, expansions, normalize, S, nus, cs, exp_kind, centred, opts, key, replay_d)
     irregular_wellformed(rep, rng)
     expansion_defaults(rep, rng)
+    mixed_expansions(rep, np.random.default_rng([C.seed(), 4, 9]))
     unit_monitor(rep, np.random.default_rng([C.seed(), 4, 7]))
     res = runq.run()
     seen = set()
@@ -361,6 +362,37 @@ def unit_monitor(rep, rng):
                 rep.violation(f"MFPCA ({exp_kind} expansions) on the same curves times 2^{ex}: eigenvalues {l1.tolist()} are not 2^{2 * ex} times "
                               f"{l0.tolist()}, or the eigenfunctions change with the unit of the curves",
                               {"expansions": expansions, "factor_exponent": ex, "values": [C.hexf(np.asarray(d.values)) for d, _ in parts]})
+
+
+def mixed_expansions(rep, rng):
+    """Components expanded by DIFFERENT methods in one fit (UFPCA for one, P-splines for another, either order): the
+    eigenfunctions are orthonormal for the sum over components of the L2 inner products all the same."""
+    n = 16
+    latent = np.round(rng.normal(size=(n, 3)) * np.array([2.0, 1.0, 0.5]) * 8) / 8
+    parts = [component(rng, n, k, sc, latent) for k, sc in (("uniform", 1.0), ("nonuniform", 2.0), ("shifted", 0.5))]
+    U, PS = {"method": "UFPCA", "n_components": 3}, {"method": "PSplines", "n_segments": 3, "degree": 2, "penalty": 1.0}
+    for expansions, idx in (([U, PS], (0, 1)), ([PS, U], (0, 1)), ([U, PS, U], (0, 1, 2))):
+        data = fd.multivariate([parts[j][0] for j in idx])
+        rep.case(("mixed-expansions", repr([e["method"] for e in expansions])), nontrivial=True, kind="mixed-expansions")
+        try:
+            f = fit_mfpca(data, expansions, 3, False)
+            E = [np.asarray(c.values, float) for c in f.eigenfunctions.to_grid().data]
+            S = np.asarray(f._scores_univariate, float)
+        except ModuleNotFoundError:
+            continue
+        except Exception as e:  # noqa: BLE001
+            rep.violation(f"MFPCA.fit with mixed univariate expansions raised {type(e).__name__}: {e}"[:300],
+                          {"expansions": expansions, "values": [C.hexf(np.asarray(parts[j][0].values)) for j in idx]})
+            continue
+        if float(np.max(np.abs(S.mean(axis=0)))) > 1e-8 * max(1.0, float(np.max(np.abs(S)))):
+            continue            # scores not centred: the orthonormality clause is finding F16's territory (decided in the main run)
+        K = len(E[0])
+        G = sum(np.array([[np.trapz(E[p][j] * E[p][k], parts[idx[p]][1]) for k in range(K)] for j in range(K)]) for p in range(len(E)))
+        if not np.all(np.isfinite(G)) or np.max(np.abs(G - np.eye(K))) > 1e-5:
+            rep.violation(f"MFPCA with mixed univariate expansions {[e['method'] for e in expansions]}: the eigenfunctions are not orthonormal for "
+                          f"the sum over components of the L2 inner products (Gram matrix deviates from the identity by "
+                          f"{np.max(np.abs(G - np.eye(K))):.3g})",
+                          {"expansions": expansions, "gram": G.tolist(), "values": [C.hexf(np.asarray(parts[j][0].values)) for j in idx]})
 
 
 def irregular_wellformed(rep, rng):
